@@ -5,6 +5,25 @@ HERE = os.path.dirname(os.path.dirname(os.path.abspath(__file__)))
 ALL = ["C%02d" % i for i in range(1, 21)]
 
 CLAIMED = {
+ "C01": dict(
+    text="Coq theorems over an executable model of the HTTP/1.x request-head parser (request.c: reqline, header loop, single-header rules, "
+         "CL/TE/Host post-checks): duplicate Content-Length never accepted, accepted Content-Length is all-digits <= INT64_MAX, accepted "
+         "Transfer-Encoding is exactly chunked on HTTP/1.1; model tied to the code by regenerated header/method tables and by differential "
+         "correspondence against http_header_parse_hoff()+http_request_headers_process() incl. every single-byte corruption of 12 base requests",
+    note="trusted: Coq kernel, c2v.py, extraction, harness glue; IP-literal hosts (inet_pton) are an oracle and skipped; the remaining "
+         "reject-class clauses (NUL, CTL, WS-before-colon, bare LF, missing Host) are decided by the monitor over the correspondence run, "
+         "chunked body decoding and segmentation are covered by the h1 body model where present (see DESIGN 5/C01)",
+    technique="Coq proof over executable model + differential correspondence (extracted OCaml vs C harness)",
+    design="5/C01"),
+ "C02": dict(
+    text="Coq theorems over an executable model of the URL->path pipeline (burl_normalize, buffer_urldecode_path, buffer_path_simplify, "
+         "http_request_parse_target, docroot join): for every target and every http-parseopts set an accepted target yields an absolute path "
+         "without dot segments, and joining it to a dot-free root stays under the root; exhaustive differential correspondence over an "
+         "18-symbol metacharacter alphabet x 145 parseopt sets",
+    note="trusted: Coq kernel, c2v.py, extraction, harness glue; symlinks and kernel path resolution are outside the model; alias/vhost/"
+         "x-sendfile/webdav containment is tied by correspondence where modelled (see DESIGN 5/C02)",
+    technique="Coq proof over executable model + exhaustive differential correspondence (extracted OCaml vs C harness)",
+    design="5/C02"),
  "C15": dict(
     text="Coq theorems over an executable model of http_range.c (all Range strings, all lengths): ranges in bounds, coalescing "
          "never loses a satisfiable range, 416 iff none satisfiable, single-part slice exactness, ignore rules; model tied to the "
